@@ -1740,6 +1740,7 @@ class Interp:
         state = st0
         acc = {}            # exits collected from earlier, branching iterations
         branching = 0
+        forks_start = self.forks
         saved = getattr(self, '_cl_track', None)
         try:
             for _k in range(limit):
@@ -1765,7 +1766,8 @@ class Interp:
                     if first_forked is not False:
                         break
                     branching += 1
-                    if branching > 12:
+                    if branching > 12 or self.forks - forks_start > 48:
+                        # not a small constant-trip loop after all (the decided first test was not its exit test)
                         break
                     for t, ss in exits.items():
                         acc.setdefault(t, []).extend(ss)
